@@ -5,7 +5,7 @@ import re
 from acverif.mir import short, tstr, subterms, affine_str
 from acverif.rl import (is_call, peel, peel_all, is_var, is_agg, is_const, self_field, bool_gates, try_gates, discr_gates,
                         reachable_without, must_pass, line_of, decision_table, rewrite, expand_vars, atom, cmp_norm, eq_cond,
-                        var_defs_terms, is_named_const, strip_convs, inline_closures, variant_name, enum_paths, path_conditions, path_value)
+                        var_defs_terms, is_named_const, strip_convs, inline_closures, variant_name, enum_paths, path_conditions, path_value, unwrapped, param_at, enum_gates, arm_edges, other_edges, result_gates, value_roots)
 
 AUTOS = ('nfa::noncontiguous::NFA', 'nfa::contiguous::NFA', 'dfa::DFA')
 FWD_SELF = ("&'a A", "alloc::sync::Arc<(dyn ahocorasick::AcAutomaton + 'static)>")
@@ -462,13 +462,18 @@ def r20_3(cx):
     cx.report('R20.3', b, 'auto', ok, 'kind = None selects build_auto' if ok else 'None does not go to build_auto')
     # one source NFA for every arm
     srcs = [b.call_term(bi, t) for bi, t in b.calls(r'(contiguous|dfa)::Builder::build_from_noncontiguous$|AhoCorasickBuilder::build_auto$')]
-    nl = b.locals_named('nfa')
-    nd = expand_vars(b, b.def_term(nl[0]), keep=('self', 'patterns')) if nl else None
-    ok = nd is not None and nd[0] == 'try' and is_call(nd[1], r'noncontiguous::Builder::build$') and tstr(peel(nd[1][2][0])) == 'self.nfa_noncontiguous' and is_var(peel(nd[1][2][1]), 'patterns') and len(srcs) == 3 and all(is_var(peel(c[2][1]), 'nfa') for c in srcs)
+    nb = b.calls(r'noncontiguous::Builder::build$')
+    ok = False
+    if len(nb) == 1 and len(srcs) == 3:
+        nd = b.call_term(*nb[0])
+        ok = tstr(peel_all(expand_vars(b, nd[2][0]))) == 'self.nfa_noncontiguous' and peel_all(expand_vars(b, nd[2][1])) == param_at(b, 2)
+        for c in srcs:
+            u = unwrapped(b, c[2][1])
+            ok = ok and is_call(u, r'noncontiguous::Builder::build$') and u[3] == nd[3]
     cx.report('R04.6', b, 'one-source', ok, 'every kind is built from the one noncontiguous NFA built from the patterns' if ok else 'the automaton kinds are not all derived from the same noncontiguous NFA')
     a = cx.body('ahocorasick::AhoCorasickBuilder::build_auto')
     srcs = [a.call_term(bi, t) for bi, t in a.calls(r'(contiguous|dfa)::Builder::build_from_noncontiguous$')]
-    ok = len(srcs) == 2 and all(is_var(peel(c[2][1]), 'nfa') for c in srcs) and {tstr(peel(c[2][0])) for c in srcs} == {'self.dfa', 'self.nfa_contiguous'}
+    ok = len(srcs) == 2 and all(peel_all(expand_vars(a, c[2][1])) == param_at(a, 2) for c in srcs) and {tstr(peel_all(expand_vars(a, c[2][0]))) for c in srcs} == {'self.dfa', 'self.nfa_contiguous'}
     cx.report('R04.6', a, 'one-source', ok, 'build_auto derives DFA and contiguous NFA from the given noncontiguous NFA with the builder\'s own sub-builders' if ok else 'build_auto sources deviate')
     # stored fields
     for bi, si, pl, st in b.stores():
